@@ -48,6 +48,7 @@ func runC19(c *Config, r *Report) {
 	c19R10(ic, r)
 	c19R11and12(ic, r)
 	c19R13(ic, r)
+	c19R14(ic, r)
 	// R19.8: the channel operations a debugged program runs (the cancellable variants) store their
 	// results on every path, like the blocking ones (same analysis as C01/R01.8)
 	c01R8(ic, r, "R19.8", map[string]bool{"recv": true, "recv2": true, "send": true, "rangeChan": true, "_select": true})
@@ -1193,5 +1194,78 @@ func c19R13(ic *IC, r *Report) {
 		}
 		r.Check(len(bad) == 0, "R19.13", "Debugger."+root.Name()+"/generates-no-code", ic.pos(ic.G.Funcs[root].Decl.Pos()), fmt.Sprintf("%d functions reachable, none generates exec closures", len(set)),
 			"(*Debugger)."+root.Name()+" reaches the code generator: "+strings.Join(dedupStr(bad), "; ")+". Generators then run from arbitrary nodes before Execute has wired the program (var a = 2; var b = a + 1 prints 0 as soon as one line breakpoint is requested) and on nodes which never get a generator (nil dereference in the caller of SetBreakpoints)")
+	}
+}
+
+func init() {
+	ruleText["R19.14"] = "the debugger is consulted before every node it executes: in the debugger loop of the execution function the call of (*Debugger).exec is evaluated unconditionally at each iteration (it is not the right operand of && or ||, and not under a condition) and dominates the call of the node's exec closure - a shortcut placed before it (skipping while stepping over or out) also skips the breakpoint test that exec makes first (R19.3)"
+}
+
+// c19R14: round-7 seed. The step-over / step-out skipping was moved from (*Debugger).exec into
+// the loop of runCfg (if !g.stepping() && dbg.exec(m, f)): breakpoints inside a call that is
+// stepped over were no longer reported.
+func c19R14(ic *IC, r *Report) {
+	info := ic.Info
+	fi := ic.fn(r, "runCfg")
+	if fi == nil {
+		return
+	}
+	calls := callsIn(info, fi.Decl.Body, false, "interp.Debugger.exec")
+	if len(calls) == 0 {
+		r.Errorf("R19.14: runCfg never calls (*Debugger).exec")
+		return
+	}
+	fg := buildFlow(fi.Decl.Body, info)
+	for i, c := range calls {
+		why := ""
+		path := enclosingPath(fi.Decl.Body, c)
+		var loop *ast.ForStmt
+		for k, p := range path {
+			switch y := p.(type) {
+			case *ast.ForStmt:
+				loop = y
+			case *ast.BinaryExpr:
+				if (y.Op == token.LAND || y.Op == token.LOR) && k+1 < len(path) && ast.Node(y.Y) == path[k+1] {
+					why = "it is the right operand of " + types.ExprString(y) + ": it is not evaluated when the left operand decides"
+				}
+			}
+		}
+		if loop == nil {
+			continue
+		}
+		// no enclosing if inside the loop (the call may be the condition of an if, not in its body)
+		inLoop := false
+		for k, p := range path {
+			if p == ast.Node(loop) {
+				inLoop = true
+				continue
+			}
+			if !inLoop {
+				continue
+			}
+			if ifs, ok := p.(*ast.IfStmt); ok && k+1 < len(path) && path[k+1] != ast.Node(ifs.Cond) && why == "" {
+				// inside the body or else of an if
+				if !(ast.Node(ifs.Cond).Pos() <= c.Pos() && c.End() <= ifs.Cond.End()) {
+					why = "it is made under the condition " + types.ExprString(ifs.Cond)
+				}
+			}
+		}
+		// it dominates the execution of the node
+		var bltn *ast.CallExpr
+		ast.Inspect(loop.Body, func(q ast.Node) bool {
+			if cc, ok := q.(*ast.CallExpr); ok && len(cc.Args) == 1 && bltn == nil {
+				if t := info.TypeOf(cc.Fun); t != nil && isNamed(t, "bltn") {
+					bltn = cc
+				}
+			}
+			return true
+		})
+		if bltn != nil && why == "" {
+			if d, ok := fg.dominates(c, bltn); !ok || !d {
+				why = "it does not dominate the execution of the node (" + ic.pos(bltn.Pos()) + ")"
+			}
+		}
+		r.Check(why == "", "R19.14", fmt.Sprintf("runCfg/debugger-loop#%d/debugger-consulted-before-every-node", i+1), ic.pos(c.Pos()), "the call of (*Debugger).exec is unconditional and dominates the node's execution",
+			"in the debugger loop of runCfg the call of (*Debugger).exec is not made for every node: "+why+". The breakpoint test is the first thing exec does, so a breakpoint on a line executed while stepping over a call, or before the return while stepping out, is not reported")
 	}
 }
